@@ -99,6 +99,21 @@ def _edges(rng, pos, cls, latlon=False):
     return e
 
 
+def _present(rng, f):
+    """The field with its missing values (NaN in `f`) handed over the way a user may: NaN, masked array (per field), no_data marker."""
+    how = str(rng.choice(["nan", "masked", "no_data=-999", "no_data=0"]))
+    miss = np.isnan(f)
+    if how == "nan" or not miss.any():
+        return f, {}, "nan"
+    if how == "masked":
+        filled = np.where(miss, rng.normal(size=f.shape) * 50.0, f)  # what lies under a mask is arbitrary
+        return np.ma.array(filled, mask=miss), {}, how
+    marker = -999.0 if how.endswith("-999") else 0.0
+    if np.any(f[~miss] == marker):
+        return f, {}, "nan"
+    return np.where(miss, marker, f), {"no_data": marker}, how
+
+
 def _compare(ctx, what, got_v, got_c, want_v, want_c, mech, exact=True):
     got_v, want_v = np.asarray(got_v, dtype=float), np.asarray(want_v, dtype=float)
     ctx.event("bins_compared", int(want_v.size))
@@ -141,10 +156,13 @@ def check_iso(ctx, c):
     if not _compare(ctx, "kernel", gv, gc, want_v, want_c, mech):
         return
     if c["api"]:
+        fa, fkw, how = _present(rng, f)
+        ctx.cell(f"missing-values-as/{how}")
         with warnings.catch_warnings():
             warnings.simplefilter("ignore")
-            bc, gv, gc = gs.vario_estimate(pos if dim > 1 else pos[0], f if c["nf"] > 1 else f[0], edges, estimator=c["est"], return_counts=True)
+            bc, gv, gc = gs.vario_estimate(pos if dim > 1 else pos[0], fa if c["nf"] > 1 else fa[0], edges, estimator=c["est"], return_counts=True, **fkw)
         ctx.event("kernel_calls")
+        mech = dict(mech, missing=how)
         if np.all(np.isnan(f)):
             return
         if not np.array_equal(bc, (edges[:-1] + edges[1:]) / 2.0):
@@ -269,7 +287,22 @@ def check_latlon(ctx, c):
             warnings.simplefilter("ignore")
             bc, gv, gc = gs.vario_estimate(pos, f if f.shape[0] > 1 else f[0], edges, estimator=c["est"], latlon=True, return_counts=True)
         ctx.event("kernel_calls")
-        _compare(ctx, "vario_estimate(latlon)", gv, gc, want_v, want_c, dict(mech, entry="vario_estimate"))
+        if not _compare(ctx, "vario_estimate(latlon)", gv, gc, want_v, want_c, dict(mech, entry="vario_estimate")):
+            return
+        # the same bin array again, now in another distance unit: centres scale, counts and values stay
+        gsc = float(rng.choice([6371.0, 57.29577951308232]))
+        e2 = np.ascontiguousarray(edges * gsc)
+        for rep in range(2):
+            with warnings.catch_warnings():
+                warnings.simplefilter("ignore")
+                bc2, gv2, gc2 = gs.vario_estimate(pos, f if f.shape[0] > 1 else f[0], e2, estimator=c["est"], latlon=True, geo_scale=gsc, return_counts=True)
+            ctx.event("kernel_calls")
+            # scaling the edges rounds them: pairs exactly on an edge may move; compare only if no distance is that close to an edge
+            ds = np.array([ov.dist_haversine(pos.tolist(), i, j) for i in range(pos.shape[1]) for j in range(i + 1, pos.shape[1])] or [1.0])
+            if np.min(np.abs(ds[:, None] - edges[None, :])) < 1e-9:
+                break
+            if not _compare(ctx, f"vario_estimate(latlon,geo_scale,call{rep + 1})", gv2, gc2, want_v, want_c, dict(mech, entry="vario_estimate", geo_scale=True, call=rep + 1), exact=False):
+                return
 
 
 def check_axis(ctx, c):
